@@ -67,6 +67,7 @@ fn main() {
                 "C16" => checks::c16::run(&tier, &args),
                 "C13" => checks::c13::run(&tier, &args),
                 "C20" => checks::c20::run(&tier, &args),
+                "C15" => checks::c15::run(&tier, &args),
                 _ => { eprintln!("unknown property {id}"); 2 }
             };
             std::process::exit(code);
